@@ -74,4 +74,25 @@ ParentUnaffected(chain) == \A k \in 1..Len(chain) : Render(chain, k) = Render(Su
 OutsideIgnored(chain) ==
   LET stripped == [i \in 1..Len(chain) |-> IF i = 1 THEN chain[i] ELSE [chain[i] EXCEPT !.doc = <<>>]] IN
   \A k \in 1..Len(chain) : Render(chain, k) = Render(stripped, k)
+
+\* ---- ExecuteBlocks (the API that renders named blocks of a template on their own, without its document):
+\* for every requested name that some level <= k defines, the rendering of the most-derived definition - exactly what
+\* that block shows inside Render(chain, k) when it stands outside any loop - with Super reaching the less-derived
+\* definitions and nested block items dispatching over the whole chain; names nobody defines are absent from the result.
+\* The result does not depend on which other names are requested, nor on their order.
+RenderBlock(chain, k, name) == RenderDefs(chain, k, name, DefLevels(chain, k, name), 12, "")
+Defined(chain, k, name) == DefLevels(chain, k, name) # <<>>
+ExecuteBlocks(chain, k, req) == [n \in {x \in req : Defined(chain, k, x)} |-> RenderBlock(chain, k, n)]
+
+\* s occurs as a contiguous run in t
+Within(s, t) == \E i \in 0..(Len(t) - Len(s)) : SubSeq(t, i + 1, i + Len(s)) = s
+\* a block that the base document shows plainly (not in a loop) appears in the rendering as ExecuteBlocks gives it
+BlocksAgreeWithRender(chain) ==
+  \A k \in 1..Len(chain) : \A i \in 1..Len(chain[1].doc) :
+     LET it == chain[1].doc[i] IN
+     (it.t = "block" /\ it.wrap # "for") => Within(RenderBlock(chain, k, it.name), Render(chain, k))
+\* a level that neither defines nor inherits a change keeps the block: adding a level without definitions changes nothing
+BlocksInherited(chain) ==
+  \A k \in 1..Len(chain) : \A n \in {"a", "b"} :
+     (k > 1 /\ ~Defines(chain[k], n)) => (Defined(chain, k, n) = Defined(chain, k - 1, n))
 =============================================================================
